@@ -30,13 +30,16 @@ class Obligation:
         return s.to_smt2()
 
 
-def _model_to_dict(m):
+def _model_to_dict(m, ctx=None):
     out = {}
     for d in m.decls():
         try:
             v = m[d]
             if d.arity() == 0:
                 out[d.name()] = str(v)
+            elif d.arity() == 1 and d.domain(0) == z3.IntSort(ctx):
+                # tabulate unary functions over Int at 0..7 (sequence models)
+                out[d.name()] = [str(m.eval(d(z3.IntVal(i, ctx)), model_completion=True)) for i in range(8)]
             else:
                 out[d.name()] = str(v)
         except Exception:
@@ -61,7 +64,7 @@ def _eval_terms(m, ctx, smt2, evals):
     return out
 
 
-def run_z3(smt2, timeout_ms, evals=None, seed=0):
+def run_z3(smt2, timeout_ms, evals=None, seed=0, prefer=None):
     ctx = z3.Context()
     s = z3.Solver(ctx=ctx)
     s.set("timeout", int(timeout_ms))
@@ -78,7 +81,20 @@ def run_z3(smt2, timeout_ms, evals=None, seed=0):
         return {"verdict": "unsat", "backend": "z3", "time": dt}
     if r == z3.sat:
         m = s.model()
-        res = {"verdict": "sat", "backend": "z3", "time": dt, "model": _model_to_dict(m)}
+        if prefer:
+            # look for a smaller counter-model (same query + size bounds)
+            decls = "\n".join(l for l in smt2.splitlines() if l.startswith("(declare-") or l.startswith("(define-"))
+            try:
+                s.push()
+                for p in prefer:
+                    for f in z3.parse_smt2_string(decls + f"\n(assert {p})", ctx=ctx):
+                        s.add(f)
+                if s.check() == z3.sat:
+                    m = s.model()
+                s.pop()
+            except z3.Z3Exception:
+                pass
+        res = {"verdict": "sat", "backend": "z3", "time": dt, "model": _model_to_dict(m, ctx)}
         res["evals"] = _eval_terms(m, ctx, smt2, evals)
         return res
     return {"verdict": "unknown", "backend": "z3", "time": dt, "reason": s.reason_unknown()}
@@ -108,8 +124,8 @@ def run_cvc5(smt2, timeout_ms, strings=False):
 
 
 def _work(job):
-    name, smt2, timeout_ms, use_cvc5, evals, seed, both = job
-    r = run_z3(smt2, timeout_ms, evals, seed)
+    name, smt2, timeout_ms, use_cvc5, evals, seed, both, prefer = job
+    r = run_z3(smt2, timeout_ms, evals, seed, prefer)
     if r["verdict"] == "unknown" and use_cvc5:
         r2 = run_cvc5(smt2, timeout_ms)
         r2["z3_time"] = r["time"]
@@ -131,7 +147,9 @@ def discharge(obls, timeout_ms=30000, procs=None, use_cvc5=True, seed=0, both=Fa
     for o in obls:
         if o.smt2 is None:
             o.smt2 = o.to_smt2()
-        jobs.append((o.name, o.smt2, timeout_ms, use_cvc5, o.info.get("evals"), seed, both))
+        canary = o.expect == "refutable"
+        jobs.append((o.name, o.smt2, min(timeout_ms, 2500) if canary else timeout_ms, use_cvc5 and not canary,
+                     o.info.get("evals"), seed, both, o.info.get("prefer")))
     by = {o.name: o for o in obls}
     if len(by) != len(obls):
         seen = set()
